@@ -152,13 +152,16 @@ def run_loci(rec, sh, tier, seed):
                             for end in range(start + 1, len(s) + 1):
                                 cls, eseq, esig = _expect(ci, start, end, iw, ow, jit, with_sig)
                                 loci = pandas.DataFrame({"chrom": [name], "start": [start], "end": [end]}, index=[(start + end) % 3])
+                                # the coordinate columns in every integer dtype a table may carry (unsigned ones included)
+                                cdt = ("int64", "int32", "uint32", "uint64", "uint16", "int16")[(start + 2 * end + ow) % 6]
+                                loci = loci.astype({"start": cdt, "end": cdt})
                                 if sh["input"] == "file":
                                     a = dict(sequences=fa, signals=bws if with_sig else None)
                                 else:
                                     a = dict(sequences=dseq, signals=dsig if with_sig else None)
                                 st, val = call(extract_loci, loci, in_window=iw, out_window=ow, max_jitter=jit, **a)
                                 case = dict(fn="extract_loci", input=sh["input"], chrom=name, start=start, end=end, in_window=iw,
-                                            out_window=ow, max_jitter=jit, signals=with_sig)
+                                            out_window=ow, max_jitter=jit, signals=with_sig, coordinate_dtype=cdt)
                                 kept = st == "ok"
                                 rec.case(1, int(kept))
                                 if not kept and "at least one array" not in str(val) and "need at least" not in str(val):
@@ -457,7 +460,7 @@ PAL = [["0.250000", "0.250000", "0.250000", "0.250000"], ["0.970000", "0.010000"
        ["0.123457", "0.376543", "0.200000", "0.300000"]]
 
 
-def _meme_text(motifs, crlf, final_nl, trail_sp, header_blank):
+def _meme_text(motifs, crlf, final_nl, trail_sp, header_blank, sep="  "):
     """motifs: list of (name, width, url, blanks_after, blank_before_matrix)"""
     nl = "\r\n" if crlf else "\n"
     lines = ["MEME version 4", "", "ALPHABET= ACGT", "", "strands: + -", "", "Background letter frequencies (from uniform background):",
@@ -471,7 +474,7 @@ def _meme_text(motifs, crlf, final_nl, trail_sp, header_blank):
         for r in range(width):
             vals = PAL[(mi * 3 + r * 2 + width) % len(PAL)]
             rows.append([float(v) for v in vals])
-            lines.append(("  " if r % 2 else " ") + "  ".join(vals) + ("  " if trail_sp else ""))
+            lines.append(("  " if r % 2 else " ") + sep.join(vals) + ("  " if trail_sp else ""))
         if url:
             lines.append("URL http://example.org/%s" % name.split()[0])
         lines.extend([""] * blanks)
@@ -533,6 +536,29 @@ def run_meme(rec, sh, tier, seed):
                         if not bad:
                             states.add((tuple(combo), crlf, final_nl, trail_sp, header_blank, bbm))
                             rec.observe(names, float(sum(x[1].sum() for x in e)))
+        if n == 2:
+            # characters that Python counts as white space or as line boundaries in SOME of its APIs (form feed, vertical tab, the
+            # information separators, NEL, the Unicode line / paragraph separators), used between the numbers of a row and inside the
+            # free-text part of a motif name: a line of the file ends at a newline and nowhere else
+            for sep in ("\t", "\x0c", " \x0b ", "\x1c", " \x1d", "\x1e ", "\x85", "\u2028", " \u2029 "):
+                for crlf in (False, True):
+                    motifs = [("M0 report%spage 2" % sep, 2, False, 1, 0), ("M1 report%spage 3" % sep, 3, True, 0, 0), ("MA0002.1", 1, False, 0, 0)]
+                    text, exp = _meme_text(motifs, crlf, True, False, 1, sep=sep)
+                    with open(path, "w", newline="", encoding="utf-8") as fh:
+                        fh.write(text)
+                    case = dict(fn="read_meme", layout="3 motifs", crlf=crlf, separator=repr(sep), names=[m[0] for m in motifs])
+                    st, got = call(read_meme, path)
+                    rec.case(1, 1)
+                    if st != "ok":
+                        rec.violation("read_meme:raises:unusual_whitespace", case, observed=got)
+                        continue
+                    if list(got.keys()) != [x[0] for x in exp]:
+                        rec.violation("read_meme:motifs_missing_or_misordered:unusual_whitespace", case, expected=[x[0] for x in exp], observed=list(got.keys()))
+                        continue
+                    for (nm, pw) in exp:
+                        if tuple(got[nm].shape) != pw.shape or not numpy.array_equal(got[nm].numpy(), pw):
+                            rec.violation("read_meme:wrong_probabilities:unusual_whitespace", dict(case, motif=nm), expected=pw, observed=got[nm])
+                            break
         rec.count("states", len(states))
         rec.sample(dict(kind="meme", n_motifs=n, per_motif_options=len(per), file_level="crlf x final newline x trailing spaces x header/matrix blank lines",
                         example=text[:400]))
